@@ -467,6 +467,16 @@ def _sleep(it, s):
     return None
 
 
+@model(json.dumps)
+def _json_dumps(it, obj, indent=None, **kw):
+    from .ext import JDump
+    if kw or indent is not None:
+        raise EngineError('json.dumps options other than indent=None')
+    if all_native([obj]):
+        return json.dumps(obj, indent=None)
+    return JDump(obj)
+
+
 @model(copy.deepcopy)
 def _deepcopy(it, x):
     return V.clone_value(x, {})
